@@ -75,3 +75,30 @@ Example C17_greedy_then_dynamic :
   apply_actions [plain_mem 1 100; plain_mem 2 7] [AGreedy 2; ADynamic 2 1]
   = POk [plain_mem 1 100; {| m_name := 2; m_type := 7; m_bound := Some 1; m_size := None; m_greedy := true; m_opt := false |}].
 Proof. vm_compute. reflexivity. Qed.
+
+(* isar: the member records built from a <member> element's optional flag and <dimension> attributes
+   (model/PcIsar.v, following parsers/isar.py make_struct_members; tied by checks/patchcorr.py run_isar) are the
+   text front-end's records of the corresponding declarations *)
+From Prophy Require Import PcIsar.
+Theorem C17_isar_members_are_text_forms :
+  forall (has_name numof_name len_name : nat -> nat) (u32 : nat),
+  let members := isar_members has_name numof_name len_name u32 in
+  (forall n t, members n t false None false = [text_member (DPlain t n)]) /\
+  (forall n t, members n t true None false = [text_member (DOpt t n)]) /\
+  (forall n t a b dyn,
+     members n t false (Some {| d_size := Some a; d_size2 := Some b; d_this_is_variable := false; d_var_name := None;
+                                d_is_variable := false; d_var_type := None |}) dyn = [text_member (DFixed t n (a * b))]) /\
+  (forall n t s sz sz2 tiv iv vt dyn,
+     members n t false (Some {| d_size := sz; d_size2 := sz2; d_this_is_variable := tiv; d_var_name := Some (true, s);
+                                d_is_variable := iv; d_var_type := vt |}) dyn = [text_member (DBound t n s)]) /\
+  (forall n t a ob vt,
+     members n t false (Some {| d_size := Some a; d_size2 := ob; d_this_is_variable := false; d_var_name := None;
+                                d_is_variable := true; d_var_type := vt |}) false
+     = [text_member (DPlain (match vt with Some c => c | None => u32 end) (len_name n));
+        text_member (DLimitedBy t n (match ob with Some b => (a * b)%Z | None => a end) (len_name n))]).
+Proof.
+  intros has_name numof_name len_name u32 members. split; [reflexivity|]. split; [reflexivity|].
+  split; [intros; apply isar_fixed_2d|]. split; [intros; apply isar_bound|].
+  intros n t a ob vt. apply (isar_limited has_name numof_name len_name u32 n t a ob None vt). intros s H. discriminate.
+Qed.
+Print Assumptions C17_isar_members_are_text_forms.
